@@ -9,7 +9,10 @@
 //   gen ver=sk|sse seed=<n> opts=<5 digits> nodes=<name:parent;...> shapes=<name:parent:nv:nt:flags:nb;...>
 //        flags: u uvs, n normals, c colours, w white colours, s skinned, m model-space shader, t strips (LE),
 //               p LE partitions without vertex weights, q LE partitions without bones / bone indices,
-//               d SE NiSkinData without weights, a alpha property, e string extra data, h BSDynamicTriShape (SE)
+//               d SE NiSkinData without weights, a alpha property, e string extra data, h BSDynamicTriShape (SE),
+//               f triangles i,i+1,i+2 first (every vertex used: one dense partition), r / R LE partitions rewritten
+//               with an unordered vertexMap (r: any order, R: first and last entry kept, the rest shuffled)
+//   file ... perm=1|2: the same rewrite (1 = r, 2 = R) of every LE partition of the loaded file, then save + reload
 //   rename nodes=<parent;parent..> kids=<node:kind:name;...>   (kind s = shape, n = node; names hex)
 #include <algorithm>
 #include <cstring>
@@ -367,6 +370,66 @@ struct CvRng {
 	uint32_t below(uint32_t n) { return n ? next() % n : 0; }
 };
 
+// Rewrite one partition so that it describes the same geometry with an unordered vertex map: position j of
+// the new per-vertex arrays holds what position perm[j] held; mapped triangle / strip indices follow.
+void cv_permute_partition(NiSkinPartition::PartitionBlock& p, CvRng& rng, int mode) {
+	size_t n = p.vertexMap.size();
+	if (n < 3)
+		return;
+	std::vector<size_t> perm(n);
+	for (size_t i = 0; i < n; ++i)
+		perm[i] = i;
+	size_t lo = mode == 2 ? 1 : 0, hi = mode == 2 ? n - 1 : n;       // [lo, hi) is shuffled
+	if (hi - lo < 2)
+		return;
+	for (size_t i = hi - 1; i > lo; --i)
+		std::swap(perm[i], perm[lo + rng.below(static_cast<uint32_t>(i - lo + 1))]);
+	bool moved = false;
+	for (size_t i = 0; i < n; ++i)
+		moved = moved || perm[i] != i;
+	if (!moved)
+		std::swap(perm[lo], perm[lo + 1]);
+	std::vector<uint16_t> inv(n);
+	for (size_t j = 0; j < n; ++j)
+		inv[perm[j]] = static_cast<uint16_t>(j);
+	auto pick = [&](auto& vec) {
+		if (vec.size() != n)
+			return;
+		auto old = vec;
+		for (size_t j = 0; j < n; ++j)
+			vec[j] = old[perm[j]];
+	};
+	pick(p.vertexMap);
+	pick(p.vertexWeights);
+	pick(p.boneIndices);
+	auto remap = [&](uint16_t i) { return i < n ? inv[i] : i; };
+	for (auto& t : p.triangles)
+		t = Triangle(remap(t.p1), remap(t.p2), remap(t.p3));
+	for (auto& st : p.strips)
+		for (auto& i : st)
+			i = remap(i);
+	p.trueTriangles.clear();
+}
+
+int cv_permute_all(NifFile& nif, CvRng& rng, int mode) {
+	int count = 0;
+	auto& hdr = nif.GetHeader();
+	for (auto shape : nif.GetShapes()) {
+		if (dynamic_cast<BSTriShape*>(shape))
+			continue;
+		auto skinInst = hdr.GetBlock<NiSkinInstance>(shape->SkinInstanceRef());
+		NiSkinPartition* sp = skinInst ? hdr.GetBlock(skinInst->skinPartitionRef) : nullptr;
+		if (!sp || !sp->bMappedIndices)
+			continue;
+		for (auto& p : sp->partitions) {
+			cv_permute_partition(p, rng, mode);
+			++count;
+		}
+		sp->triParts.clear();
+	}
+	return count;
+}
+
 std::unique_ptr<NifFile> cv_build(const Case& c) {
 	bool sk = c.get("ver") == "sk";
 	auto nif = std::make_unique<NifFile>();
@@ -403,6 +466,13 @@ std::unique_ptr<NifFile> cv_build(const Case& c) {
 		}
 		std::vector<Triangle> tris;
 		std::set<std::vector<uint16_t>> seen;
+		if (has('f'))
+			for (uint32_t i = 0; i + 2 < nv; ++i) {
+				Triangle t(static_cast<uint16_t>(i), static_cast<uint16_t>(i + 1), static_cast<uint16_t>(i + 2));
+				tris.push_back(t);
+				t.rot();
+				seen.insert({t.p1, t.p2, t.p3});
+			}
 		for (uint32_t i = 0; i < nt && nv >= 3; ++i) {
 			uint16_t a = static_cast<uint16_t>(rng.below(nv)), b = static_cast<uint16_t>(rng.below(nv)), d = static_cast<uint16_t>(rng.below(nv));
 			if (a == b || b == d || a == d)
@@ -539,6 +609,11 @@ std::unique_ptr<NifFile> cv_build(const Case& c) {
 				}
 			}
 			NiSkinPartition* sp = skinInst ? hdr.GetBlock(skinInst->skinPartitionRef) : nullptr;
+			if (sp && sk && (has('r') || has('R')) && sp->bMappedIndices) {
+				for (auto& p : sp->partitions)
+					cv_permute_partition(p, rng, has('R') ? 2 : 1);
+				sp->triParts.clear();
+			}
 			if (sp && sk && has('p'))
 				for (auto& p : sp->partitions) {
 					p.hasVertexWeights = false;
@@ -585,8 +660,23 @@ int oracle_convert(int, char**) {
 			int rc = nif->Load(c.get("path"));
 			if (rc != 0)
 				out << "{\"load_rc\":" << rc << "}";
-			else
+			else {
+				int mode = static_cast<int>(c.geti("perm"));
+				if (mode == 1 || mode == 2) {
+					CvRng rng{static_cast<uint64_t>(c.geti("seed")) * 2654435761ULL + 99};
+					cv_permute_all(*nif, rng, mode);
+					std::stringstream ss(std::ios::in | std::ios::out | std::ios::binary);
+					NifSaveOptions so;
+					so.optimize = false;
+					so.sortBlocks = false;
+					nif->Save(ss, so);
+					auto re = std::make_unique<NifFile>();
+					ss.seekg(0);
+					if (re->Load(ss) == 0)
+						nif = std::move(re);
+				}
 				cv_pipeline(std::move(nif), c.get("opts"), c.get("back") != "0", out);
+			}
 		}
 		else if (c.op == "gen") {
 			auto nif = cv_build(c);
